@@ -47,6 +47,7 @@ C14_complete_NoDataType C14_complete_feature_entries
 C14_guards_entity C14_guards_file C14_guards_property C14_guards_feature C14_guards_range C14_guards_sampled
 C14_guards_array C14_guards_tag C14_guards_multi_tag C14_guards_opaque C14_guards_cover C14_guards_locals
 C14_guards_get_dim_units
+C14_linked_ticks_count C14_linked_ticks_read C14_link_accepts_any_length C14_linked_is_alias
 """.split()]
 ASSUMPTIONS = [
     "the validator reads the file only through the public API; the model works on a description of what those reads "
@@ -1255,8 +1256,9 @@ def _ent(h5, o):
     return {"type": _s(o.type), "id": _s(o.id), "uuid": True, "name": _s(o.name), "created_at": _created(o)}
 
 
-def describe(f):
-    """returns (description, {entity id: (kind, walk path)})"""
+def describe(f, links=None):
+    """returns (description, {entity id: (kind, walk path)}); `links` (a list) receives, per range descriptor linked to
+    a DataArray, the driver case of the link model and what the real descriptor presents as its ticks"""
     keys = {}
 
     def reg(o, kind, path):
@@ -1335,6 +1337,11 @@ def describe(f):
                 if k == "range":
                     dd["ticks"] = [_frac(t) for t in d.ticks]
                     dd["unit"] = _s(d.unit)
+                    if links is not None and d.has_link and d.dimension_link._data_object_type == "DataArray":
+                        prov = np.asarray(d.dimension_link.linked_data)
+                        links.append((["linkticks", [int(n) for n in prov.shape],
+                                       [int(v) for v in d.dimension_link.index], [_frac(v) for v in prov.ravel()]],
+                                      {"ok": list(dd["ticks"])}))
                 elif k == "sample":
                     iv = d.sampling_interval
                     dd["interval"] = None if iv is None else _frac(iv)
@@ -1626,12 +1633,62 @@ def gen_cases(ctx, scope, n_plain, n_bases, singles_per_base, pairs_per_base, ex
     return cases
 
 
-def run_case(ctx, recipe, guards=None, gstats=None, walk=True):
+def link_cases(ctx, n):
+    """malformed stream of the link model: `link_data_array(provider, index)` with indices of the wrong rank, with no /
+    several -1, other negative entries, coordinates outside the provider; after an accepted link the ticks are read.
+    [(driver case, what nixio did)]"""
+    nix = _nix()
+    from nixio.exceptions import IncompatibleDimensions
+    rng = ctx.rng
+    ctx._c14n = getattr(ctx, "_c14n", 0) + 1
+    path = ctx.tmpfile("l%d.nix" % ctx._c14n)
+    f = nix.File.open(path, nix.FileMode.Overwrite)
+    out = []
+    try:
+        blk = f.create_block("b", "t")
+        da = blk.create_data_array("d", "t", data=np.zeros(3))
+        rd = da.append_range_dimension(ticks=[1.0, 2.0, 3.0])
+        provs = {}
+        for _ in range(n):
+            shape = tuple(rng.choice([1, 2, 3, 4]) for _ in range(rng.choice([1, 1, 2, 2, 3])))
+            if shape not in provs:
+                provs[shape] = blk.create_data_array("p%d" % len(provs), "t",
+                                                     data=np.arange(float(np.prod(shape))).reshape(shape) * 0.5)
+            rank = len(shape) + rng.choice([0, 0, 0, 0, 0, 0, -1, 1])
+            index = [rng.choice([0, 0, 1, 2, 3, -2, 4]) for _ in range(max(rank, 0))]
+            for _k in range(rng.choice([0, 1, 1, 1, 1, 1, 1, 2])):
+                if index:
+                    index[rng.randrange(len(index))] = -1
+            try:
+                rd.link_data_array(provs[shape], list(index))
+                res = {"ok": None}
+            except IncompatibleDimensions:
+                res = {"err": "IncompatibleDimensions"}
+            except ValueError:
+                res = {"err": "ValueError"}
+            out.append((["linkaccept", list(shape), index], res))
+            if "ok" in res:
+                try:
+                    res = {"ok": [_frac(t) for t in rd.ticks]}
+                except IndexError:
+                    res = {"err": "IndexError"}
+                out.append((["linkticks", list(shape), index, [_frac(v) for v in np.asarray(provs[shape][:]).ravel()]],
+                            res))
+    finally:
+        f.close()
+        try:
+            os.remove(path)
+        except OSError:
+            pass
+    return out
+
+
+def run_case(ctx, recipe, guards=None, gstats=None, walk=True, links=None):
     """build, describe, validate; returns (description, impl result keyed by walk path, impl keyed by recipe path).
     guards (a list) receives, for every object of the file, the compiled-guard case and what the interpreter finds"""
     f, ids = build(ctx, recipe)
     try:
-        desc, keys = describe(f) if walk else (None, {})
+        desc, keys = describe(f, links) if walk else (None, {})
         if guards is not None:
             guards.extend(G.collect(f, gstats))
         raw = run_validate(f)
@@ -1660,9 +1717,11 @@ def correspondence(ctx):
     descs, impls = [], []
     dist = {"labels": {}, "injections": {}, "impl_errors": {}, "messages": {}, "guards": {}}
     gpairs = []
+    lpairs = []             # the link model: ticks of descriptors linked to a DataArray, link acceptance
     gfiles = ctx.budget(20, 200)        # files whose objects also go through the compiled guards
     for ci, (label, recipe, injs) in enumerate(cases):
-        desc, impl, _ = run_case(ctx, recipe, gpairs if ci % 2 == 0 and ci < 2 * gfiles else None, dist["guards"])
+        desc, impl, _ = run_case(ctx, recipe, gpairs if ci % 2 == 0 and ci < 2 * gfiles else None, dist["guards"],
+                                 links=lpairs)
         descs.append(["validate", desc])
         impls.append(impl)
         dist["labels"][label] = dist["labels"].get(label, 0) + 1
@@ -1676,9 +1735,20 @@ def correspondence(ctx):
                     nm = m[2] if m[0] in ("feature", "property") else m[0]
                     dist["messages"][nm] = dist["messages"].get(nm, 0) + 1
     gpairs = G.dedup(gpairs)
-    model = core.run_driver(PROP, descs + [c for c, _r in gpairs])
+    lpairs += link_cases(ctx, ctx.budget(60, 600))
+    lseen = set()
+    lpairs = [(c, r) for c, r in lpairs if core.canon(c) not in lseen and not lseen.add(core.canon(c))]
+    model = core.run_driver(PROP, descs + [c for c, _r in gpairs] + [c for c, _r in lpairs])
+    lmodel, model = model[len(descs) + len(gpairs):], model[:len(descs) + len(gpairs)]
     gmodel, model = model[len(descs):], model[:len(descs)]
     disagreements = []
+    for (case, res), m in zip(lpairs, lmodel):
+        if m != res:
+            disagreements.append(Disagreement(case, m, res))
+    dist["links"] = {"distinct": len(lpairs)}
+    for c, r in lpairs:
+        k = "%s.%s" % (c[0], r.get("err", "ok"))
+        dist["links"][k] = dist["links"].get(k, 0) + 1
     for (case, res), m in zip(gpairs, gmodel):
         if m != res:
             disagreements.append(Disagreement(case, m, res))
@@ -1693,7 +1763,7 @@ def correspondence(ctx):
     disagreements.sort(key=lambda d: len(core.canon(d.case)))
     samples = [{"case": cases[k][2], "label": cases[k][0], "model": model[k]} for k in
                sorted(ctx.rng.sample(range(len(cases)), min(6, len(cases))))]
-    return {"evaluations": len(cases) + len(gpairs), "distinct_nontrivial": len(seen),
+    return {"evaluations": len(cases) + len(gpairs) + len(lpairs), "distinct_nontrivial": len(seen),
             "rule": "generated well-formed files (1-2 blocks; arrays of rank 1-3 in families that share per-dimension "
                     "quantities, range/sampled/set descriptor mixes, units = prefix x base unit x power over the "
                     "complete SI tables with a bias to look-alike symbols; tags and multi-tags with 0-4 references, "
@@ -1707,7 +1777,12 @@ def correspondence(ctx):
                     "reported or an exception; distinct by canonical result. On every second file the conditions of "
                     "the report sites are also evaluated per object: by the Python interpreter (the AST nodes of "
                     "validator.py on the real nixio object) and by the driver (the compiled PyGuard expressions on "
-                    "the values the reads returned), compared exactly",
+                    "the values the reads returned), compared exactly. Range descriptors take their ticks / units and set "
+                    "descriptors their labels also through links (a vector of another DataArray of rank 1-3, a vector of "
+                    "the array itself, a DataFrame column; relink injections: provider one entry shorter / equal / longer, "
+                    "self link along another dimension); per linked descriptor the link model's vector vs the real "
+                    "dim.ticks, plus a malformed stream of link_data_array calls (wrong rank, no / several -1, other "
+                    "negatives, coordinates outside the provider) compared by exception class",
             "samples": samples, "distribution": dist, "disagreements": disagreements, "exhaustive": False}
 
 
@@ -1952,8 +2027,13 @@ MANIFEST = {
                   "verdict helper tag_units_match_refs_units inlined at its calls, get_dim_units compiled as a "
                   "collecting loop) and proved, for all values the reads can return, to compute exactly the model's "
                   "message lists (C14_guards_entity/file/property/feature/range/sampled/array/tag/multi_tag/"
-                  "get_dim_units; coverage and locals pinned by C14_guards_opaque/cover/locals); exact differential runs on "
-                  "real HDF5 files (well-formed files incl. boundary values of every presence-tested field, single / "
+                  "get_dim_units; coverage and locals pinned by C14_guards_opaque/cover/locals); the read behind `dim.ticks` of a "
+                  "descriptor linked to a DataArray is modelled too (Pure/DimLink.lean: link_data_array's verdict, "
+                  "is_alias, DimensionLink.values as a vector of row-major data): the tick count message is reported "
+                  "iff the provider's extent along the marked axis differs from the data extent, whatever is_alias says "
+                  "(C14_linked_ticks_count / _read / C14_link_accepts_any_length / C14_linked_is_alias); exact differential runs on "
+                  "real HDF5 files (well-formed files incl. boundary values of every presence-tested field and descriptors "
+                  "whose ticks / labels come through a link: vector of another or the same DataArray, DataFrame column; single / "
                   "pairwise / subset injections, multi-reference cases, unit sweeps over the complete SI tables), and "
                   "per object the compiled conditions under the Lean semantics against the same AST nodes run by the "
                   "Python interpreter; an independent recipe-level oracle with its own SI unit reader states the "
